@@ -230,10 +230,13 @@ def expected_arrays(nel, nn, dim, items):
         elif a.ndim == 2:
             ax = [i for i, s in enumerate(a.shape) if s % N == 0]
             m = a.shape[1 - ax[0]] if ax else 0
-            if len(ax) != 1 or m < 2:
+            if len(ax) != 1 or m < 1:
                 exp.append((key, None))
                 continue
-            cols = [(i, a[i, :] if ax[0] == 1 else a[:, i]) for i in range(m)]
+            if m == 1:   # a block holding one vector is written under the plain key
+                cols = [(None, a.reshape(-1))]
+            else:
+                cols = [(i, a[i, :] if ax[0] == 1 else a[:, i]) for i in range(m)]
         else:
             exp.append((key, None))
             continue
